@@ -132,6 +132,8 @@ def render(e, nm=None):
         if isinstance(v, (int, float)) and not isinstance(v, bool) and v < 0:
             return "(" + repr(v) + ")"
         return repr(v)
+    if t == "rawexpr":
+        return e[1]
     if t == "bin":
         return "(" + render(e[2], nm) + " " + e[1] + " " + render(e[3], nm) + ")"
     if t == "neg":
